@@ -160,6 +160,8 @@ def layout(lines, addr_bits, origin=0, predefined_zones=None, page_size=1, prede
     if res.kind == 'ACCEPT' and res.notes:
         res.dont_care('cursor moved outside a zone without placing bytes: ' + res.notes[0])
     res.lines = lines
+    res.cursor = cursor
+    res.final_zone = cur_zone
     res.predefined_data = predefined_data or []
     return res
 
